@@ -102,9 +102,15 @@ func GenBankScenario(t *rapid.T, st *Stats) (*Scenario, bankInfo) {
 				continue
 			}
 			last = amt
-			if rapid.IntRange(0, 5).Draw(t, "twoInBatch") == 0 && amt > 3 {
+			if rapid.IntRange(0, 3).Draw(t, "twoInBatch") == 0 && amt > 3 {
 				// several PEG requests in one batch
-				b.TX = append(b.TX, w.Batch(a, []Tx{{From: a.FA(), Asset: Tickers[src-1], Amt: amt / 3, Conv: "PEG"}, {From: a.FA(), Asset: Tickers[src-1], Amt: amt / 3, Conv: "PEG"}}))
+				// equal amounts in half of them (a tie inside one batch), different ones otherwise (the two
+				// requests then get different yields and refunds)
+				second := amt / 3
+				if rapid.Bool().Draw(t, "unequalInBatch") {
+					second = amt/4 + 1
+				}
+				b.TX = append(b.TX, w.Batch(a, []Tx{{From: a.FA(), Asset: Tickers[src-1], Amt: amt / 3, Conv: "PEG"}, {From: a.FA(), Asset: Tickers[src-1], Amt: second, Conv: "PEG"}}))
 				info.Requests += 2
 			} else {
 				b.TX = append(b.TX, w.Conversion(a, src, amt, TPEG))
